@@ -1,5 +1,6 @@
 import FluteModel.Lemmas.BencShape
 import FluteModel.Lemmas.BencTerm
+import FluteModel.Lemmas.BencPsi
 /-
   C08 - per-transfer symbol emission, RFC offsets, end flags.
 
@@ -13,7 +14,7 @@ import FluteModel.Lemmas.BencTerm
   no call was forced and the next `read` returns `None`.
 -/
 namespace Flute.Props.C08
-open Flute Flute.Fec Flute.BlockEnc Flute.BencArith Flute.BencBlocks Flute.BencInv Flute.BencTrace Flute.BencShape
+open Flute Flute.Fec Flute.BlockEnc Flute.BencArith Flute.BencBlocks Flute.BencInv Flute.BencTrace Flute.BencShape Flute.BencPsi
 
 variable {P : Params} {c : Bytes} {aL aS nL n : Nat} {closable : Bool} {tr : List (Bool × Pkt)} {s : Enc}
 
@@ -125,13 +126,12 @@ theorem window_bound (h : Run P c aL aS nL n closable tr s) :
   obtain ⟨hI, _, _, _⟩ := h.inv
   exact ⟨by have := hI.win; omega, hI.sorted⟩
 
-/-- B flag (close object), PARTIAL.  Full statement wanted: a packet carries B only if (a) it is the last packet
+/-- B flag (close object), first half (used by `close_object_only_last` below).  Full statement wanted: a packet carries B only if (a) it is the last packet
     of a transfer created closable (`is_last_transfer`), (b) it is the single forced-stop packet, (c) it is the
     lone empty-object packet.  Proved here for the packet returned last in any run: B ⇒ the call was forced, or
     the transfer is closable AND every source byte has been counted as sent AND every open block is drained
-    (the repaired D3 condition, "every" instead of "this").  Not yet proved: that `srcSent ≥ L` implies no
-    block is left to cut (needs the byte-accounting invariant `srcSent + bytes pending in open blocks ≤ off`);
-    that implication is validated by the correspondence (B on the final packet only, all grid cases). -/
+    (the repaired D3 condition, "every" instead of "this").  That `srcSent ≥ L` implies no block is left to cut is
+    the byte-accounting invariant of Lemmas/BencPsi.lean, used in `close_object_only_last`. -/
 theorem close_object_only_last_partial {s1 s2 : Enc} {f : Bool} {p : Pkt}
     (h : Run P c aL aS nL n closable tr s1) (hstep : BlockEnc.read P s1 f = (.pkt p, s2)) (hB : p.closeObject = true) :
     f = true ∨ (closable = true ∧ P.len ≤ s2.srcSent ∧ ∀ b, b ∈ s2.blocks → b.isEmpty = true) := by
@@ -148,6 +148,37 @@ theorem close_object_only_last_partial {s1 s2 : Enc} {f : Bool} {p : Pkt}
     · right
       refine ⟨?_, hr⟩
       rw [← hcl]; cases f <;> exact hc
+
+/-- B flag (close object), FULL for non-empty objects: a packet returned by `read(f)` carries B only if the call was
+    forced (the single forced-stop packet, `forced_stop_single`) or the transfer was created closable
+    (`is_last_transfer`) AND this packet is the last one of the transfer: every block of the object has been cut
+    (`sbn = N`, `read_end`), every open block is drained, and for EVERY block the packets emitted so far are all of
+    its shards - nothing is left to send.  (`SymLe`: the codec's source symbols have at most `E` bytes - proved for
+    No-Code, Reed-Solomon, RaptorQ: `noCode_symLe`, `reedSolomon_symLe`, `raptorQ_symLe`.) -/
+theorem close_object_only_last {s1 s2 : Enc} {f : Bool} {p : Pkt}
+    (h : Run P c aL aS nL n closable tr s1) (hle : SymLe P.codec)
+    (hstep : BlockEnc.read P s1 f = (.pkt p, s2)) (hB : p.closeObject = true) :
+    f = true ∨ (closable = true ∧ s2.sbn = n ∧ s2.readEnd = true ∧ (∀ b, b ∈ s2.blocks → b.isEmpty = true) ∧
+      ∀ k, k < n → ∃ b0, blockAt P c aL aS nL k = some b0 ∧ proj (pkts (tr ++ [(f, p)])) k = b0.shards.map sview) := by
+  rcases close_object_only_last_partial h hstep hB with hf | ⟨hc, hsent, hdr⟩
+  · exact Or.inl hf
+  · right
+    have h2 : Run P c aL aS nL n closable (tr ++ [(f, p)]) s2 := by
+      obtain ⟨s0, hnew, hr⟩ := h.reads
+      exact { h with reads := ⟨s0, hnew, Reads.snoc hr hstep⟩ }
+    obtain ⟨hsbn, hre⟩ := all_cut_of_srcSent h2 hle hsent
+    obtain ⟨hI, hT, _, _⟩ := h2.inv
+    refine ⟨hc, hsbn, hre, hdr, ?_⟩
+    intro k hk
+    by_cases hopen : ∃ b, b ∈ s2.blocks ∧ b.sbn = k
+    · obtain ⟨b, hb, hbk⟩ := hopen
+      have h1 := hT.opened b hb
+      have h3 := (hI.blocks_ok b hb).2.1
+      have h4 : b.readIndex = b.shards.length := by
+        have := hdr b hb; simpa [Block.isEmpty] using this
+      rw [hbk] at h1 h3
+      exact ⟨_, h3, by rw [h1, h4, List.take_length]⟩
+    · exact hT.closed k (by omega) (fun b hb hbk => hopen ⟨b, hb, hbk⟩)
 
 /-- conversely the last packet does carry B: when all source bytes are out and every open block is drained,
     a closable transfer flags the packet -/
